@@ -107,26 +107,36 @@ Definition htags_obs (obs : list (option obs1)) : list Z :=
 Definition last_state (h : hof cind) (t : list (option (hof cind))) : option (hof cind) :=
   fold_left (fun _ o => o) t (Some h).
 
-Fixpoint seg_trace (h : hof cind) (segs : list (option Z * simkind * list cop)) : list (option (hof cind)) :=
-  match segs with
-  | [] => []
-  | (kind, sim, ops) :: r =>
-      let t := trace cind wv (csimilar sim) kind h ops in
-      t ++ match last_state h t with
-           | Some h' => seg_trace h' r
-           | None => []
-           end
-  end.
+(* the correspondence is parametric in the two executable models it replays the histories on: the hand models
+   (check) or the definitions regenerated from the source text (check_gen in Corr/C08_gen.v) *)
+Section CheckWith.
+  Variable TR : simkind -> option Z -> hof cind -> list cop -> list (option (hof cind)).
+  Variable HTR : simkind -> option Z -> heap * harch -> list hop -> list (option (heap * harch)).
 
-Definition check (c : case) : bool :=
-  match c with
-  | CArch kind sim ops obs =>
-      let t := trace cind wv (csimilar sim) kind empty ops in
-      all2 state_eqb t obs && zl_eqb (canon (tags_of_model t)) (tags_of_obs obs)
-  | CHeap kind sim nslots hops obs =>
-      let t := h_trace (osimilar sim) kind (repeat null_obj nslots, mkharch [] []) hops in
-      all2 (hstate_eqb sim) t obs && zl_eqb (hcanon nslots (htags_model t obs) []) (htags_obs obs)
-  | CSeq segs obs =>
-      let t := seg_trace empty segs in
-      all2 state_eqb t obs && zl_eqb (canon (tags_of_model t)) (tags_of_obs obs)
-  end.
+  Fixpoint seg_trace_with (h : hof cind) (segs : list (option Z * simkind * list cop)) : list (option (hof cind)) :=
+    match segs with
+    | [] => []
+    | (kind, sim, ops) :: r =>
+        let t := TR sim kind h ops in
+        t ++ match last_state h t with
+             | Some h' => seg_trace_with h' r
+             | None => []
+             end
+    end.
+
+  Definition check_with (c : case) : bool :=
+    match c with
+    | CArch kind sim ops obs =>
+        let t := TR sim kind empty ops in
+        all2 state_eqb t obs && zl_eqb (canon (tags_of_model t)) (tags_of_obs obs)
+    | CHeap kind sim nslots hops obs =>
+        let t := HTR sim kind (repeat null_obj nslots, mkharch [] []) hops in
+        all2 (hstate_eqb sim) t obs && zl_eqb (hcanon nslots (htags_model t obs) []) (htags_obs obs)
+    | CSeq segs obs =>
+        let t := seg_trace_with empty segs in
+        all2 state_eqb t obs && zl_eqb (canon (tags_of_model t)) (tags_of_obs obs)
+    end.
+End CheckWith.
+
+Definition check : case -> bool :=
+  check_with (fun sim => trace cind wv (csimilar sim)) (fun sim => h_trace (osimilar sim)).
